@@ -52,6 +52,22 @@ def ensure_build():
 
 
 def theorem_status(pid):
+    """the theorems of props/<pid>.v plus the Prop-level readings of the property kept in props/Readings*.v
+    (those whose name starts with the property id); returns (obligations, discharged, axioms, log)"""
+    names, discharged, axioms, log = _file_status(pid)
+    for extra in propdefs.READINGS.get(pid, []):
+        n2, d2, a2, l2 = _file_status(extra)
+        keep = [n for n in n2 if n.startswith(pid + "_")]
+        if not n2:                       # the readings file no longer compiles or lost its theorems
+            keep = [f"{pid}_reading ({extra}.v)"]
+        names += keep
+        discharged += [n for n in d2 if n in keep]
+        axioms.update({n: a2.get(n, ["does not compile"]) for n in keep})
+        log += l2[-500:]
+    return names, discharged, axioms, log
+
+
+def _file_status(pid):
     """compile coq/props/<pid>.v on its own; returns (obligations, discharged, axioms, log)"""
     src = os.path.join(COQ, "props", pid + ".v")
     if not os.path.exists(src):
